@@ -511,6 +511,12 @@ func fileSetVBuf(L *LState) int {
 	if n := fileIsWritable(L, file); n != 0 {
 		return n
 	}
+	// do not lose what the writer being replaced still holds
+	if bwriter, ok := file.writer.(*bufio.Writer); ok {
+		if err = bwriter.Flush(); err != nil {
+			goto errreturn
+		}
+	}
 	switch filebufOptions[L.CheckOption(2, filebufOptions)] {
 	case "no":
 		switch file.Type() {
